@@ -196,6 +196,7 @@ def run_batch(items):
   from vf import build
   results = [[] for _ in items]
   phases = []
+  late = []
 
   def make(k, c, hist, fam):
     tok = Tok(fam)
@@ -204,6 +205,7 @@ def run_batch(items):
 
     def body(state, **_kw):
       api = state.test_api
+      late.append(api.measurements.late)
       ps = state.running_phase_state
       for op, exc, obs in ops:
         name = op[0]
@@ -277,7 +279,10 @@ def run_batch(items):
     if t:
       me.with_transform(t)
     ph = htf.PhaseOptions(name='h%d' % k, requires_state=True)(body)
-    ph = htf.measures(ms, md, me)(ph)
+    # a dimensioned measurement the body only takes a handle of (kept past the end of the phase and written by
+    # a later phase): "No measurement leaves a phase PARTIALLY_SET" - not in the model, judged on its own below
+    ml = m_lib.Measurement('late').with_dimensions('x')
+    ph = htf.measures(ms, md, me, ml)(ph)
     if k % 2:
       # a derived phase keeps every attached validator ("every attached validator accepts ...")
       ph = ph.with_args(label='l%d' % k)
@@ -295,7 +300,10 @@ def run_batch(items):
       return htf.Diagnosis(build.R.a, 'conditional validators on')
     pre = [htf.diagnose(diagnoses_lib.PhaseDiagnoser(build.R, name='issue', run_func=issue))(
         htf.PhaseOptions(name='issue_diag')(lambda test: None))]
-  test = htf.Test(htf.PhaseGroup(main=pre, teardown=phases))
+  def late_writer(test):
+    for h in late:
+      h[0] = 1
+  test = htf.Test(htf.PhaseGroup(main=pre, teardown=phases + [htf.PhaseOptions(name='late_writer')(late_writer)]))
   out = []
   test.add_output_callbacks(out.append)
   build.CONF.load(allow_unset_measurements=True, _override=True)
@@ -308,6 +316,9 @@ def run_batch(items):
   if pre:
     del rec.phases[0]
     rec_bt = dict(rec_bt, phases=rec_bt['phases'][1:])
+  if rec.phases and rec.phases[-1].name == 'late_writer':
+    del rec.phases[-1]
+    rec_bt = dict(rec_bt, phases=rec_bt['phases'][:-1])
   if len(rec.phases) != len(items):
     for r in results:
       r.append(('harness', 'batch produced %d phase records for %d histories' % (len(rec.phases), len(items))))
@@ -333,6 +344,9 @@ def run_batch(items):
     if (d_mem[0], d_mem[1], d_mem[2]) != exp_d:
       bad.append(('final', 'recorded dimensioned measurement (rows, outcome, marginal) is %s, model says %s'
                   % (d_mem, exp_d)))
+    if p.measurements['late'].outcome.name == 'PARTIALLY_SET':
+      bad.append(('final', 'a dimensioned measurement whose handle was kept past the end of the phase is recorded '
+                  'PARTIALLY_SET after a later write through that handle'))
     res = build.result_kind(p.result)
     exp_res = 'EXC' if obs['perr'] == 'EXC' else 'CONTINUE'
     if res != exp_res:
